@@ -19,7 +19,7 @@ from .. import seams, ops, extfuncs, gen, verdictmon, world as W, diskreader as 
 from .common import Out, with_, drop_each, REAL_ALL, STUB_ALL
 
 ID = "C04"
-TIERS = {"quick": {"n": 6000, "chunk": 100}, "thorough": {"n": 60000, "chunk": 150, "wall_cap": 3300}}
+TIERS = {"quick": {"n": 6000, "chunk": 100}, "thorough": {"n": 200000, "chunk": 250, "wall_cap": 3300}}
 RULE = (
     "stratum A (3 of 4 scenarios): 1-4 members drawn from 13 template families (fail on line K, fail_and_stop on a planted cell, fail.onmatch, error handled with/without 'fail', validation-mode fail/no-fail, and decoys: "
     "no() -> fail(), after stop(), after skip(), false left of '->', fail.onmatch on a rejected line) over a generated file, run standalone and by one of 7 run forms under a policy with or without 'fail'; "
